@@ -239,6 +239,23 @@ def _show(d):
     return {k: (oracle.bounds_tuple(v) if hasattr(v, "lower") else (v if isinstance(v, tuple) else int(v))) for k, v in d.items()}
 
 
+def symmetric_shapes(slice_i, n):
+    """EXHAUSTIVE: every small shape that contains the integer leaf t in (-2,2), with exactly t assumed at its mid-point (as
+    int / tuple) or narrowed symmetrically to (-1,1) (tuple / Bounds) - assumptions that keep lower+upper of the declared
+    bounds - and every total interpretation of the other leaves"""
+    for spec in S.small_shapes(slice_i, n):
+        lv = oracle.spec_leaves(spec)
+        if "t" not in lv:
+            continue
+        ids = sorted(lv)
+        others = [i for i in ids if i != "t"]
+        for mode, a, b in ((1, 0, 0), (2, 0, 0), (3, -1, 1), (4, -1, 1)):
+            for vals in itertools.product(*[range(lv[i][0], lv[i][1] + 1) for i in others]):
+                env = dict(zip(others, vals))
+                yield {"model": spec, "dl": [[mode, a, b] if i == "t" else [0, 0, 0] for i in ids],
+                       "il": [[0, 0, 0] if i == "t" else [1, env[i], env[i]] for i in ids], "dc": [], "extra": []}
+
+
 def parts(tier):
-    return [Part("compound_siblings", strategy=lambda t: siblings_case(t), check=check, quick=(2, 250), thorough=(4, 3000))] + [Part("wide_nodes", strategy=lambda t: wide_assume_case(t), check=check, quick=(2, 150), thorough=(4, 2000))] + [Part("assume", strategy=lambda t: case_strategy(t), check=check, quick=(8, 300), thorough=(16, 2500)),
+    return [Part("symmetric_shapes%d" % i, enumerate_cases=(lambda t, i=i: symmetric_shapes(i, 2)), check=check, time_quick=120.0) for i in range(2)] + [Part("compound_siblings", strategy=lambda t: siblings_case(t), check=check, quick=(2, 250), thorough=(4, 3000))] + [Part("wide_nodes", strategy=lambda t: wide_assume_case(t), check=check, quick=(2, 150), thorough=(4, 2000))] + [Part("assume", strategy=lambda t: case_strategy(t), check=check, quick=(8, 300), thorough=(16, 2500)),
             Part("symmetric", strategy=lambda t: symmetric_case(t), check=check, quick=(3, 300), thorough=(6, 2500))]
